@@ -10,6 +10,7 @@ attributes, marks) still there — for all ranges inside isolating nodes incl. t
 """
 from prosemirror.model import Fragment, Slice
 from prosemirror.transform import Transform
+from prosemirror.transform.replace import covered_depths
 from prosemirror.transform.structure import can_split, lift_target
 
 from .. import core, gen, ops, schemas
@@ -188,6 +189,30 @@ def run(ctx):
                 # ---- lift targets and splits stay inside
                 for p in inner[:40]:
                     r = d.resolve(p)
+                    # covered_depths / lift_target / can_split tied exactly to the model (PM/Structure.lean), whose answers
+                    # Props/C18.lean proves never to cross an isolating ancestor
+                    q = rng.choice(inner)
+                    f_, t_ = min(p, q), max(p, q)
+                    stc, cov = outcome(lambda: covered_depths(d.resolve(f_), d.resolve(t_)))
+                    if stc == "ok":
+                        reqs.append({"op": "coveredDepths", "s": info.lean_id, "doc": info.node(d), "from": f_, "to": t_})
+                        metas.append(("coveredDepths", {"schema": info.name, "doc": d.to_json(), "from": f_, "to": t_, "iso": [a, b]}, list(cov)))
+                        if any(x <= depth for x in cov):
+                            ctx.violation("covered-crosses", "covered_depths reports a depth at or above the isolating ancestor of both ends",
+                                          {"schema": info.name, "doc": d.to_json(), "from": f_, "to": t_, "iso": [a, b], "iso_depth": depth, "covered": list(cov)})
+                    elif gen.pair_aligned(d, f_) and gen.pair_aligned(d, t_):
+                        ctx.violation("covered_depths-raises", f"covered_depths raised {cov}", {"schema": info.name, "doc": d.to_json(), "from": f_, "to": t_})
+                    br2 = outcome(lambda: d.resolve(f_).block_range(d.resolve(t_)))
+                    if br2[0] == "ok" and br2[1] is not None:
+                        stl2, tgt2 = outcome(lambda: lift_target(br2[1]))
+                        if stl2 == "ok":
+                            reqs.append({"op": "liftTarget", "s": info.lean_id, "doc": info.node(d), "from": f_, "to": t_, "depth": br2[1].depth})
+                            metas.append(("liftTarget", {"schema": info.name, "doc": d.to_json(), "from": f_, "to": t_, "depth": br2[1].depth}, tgt2))
+                    for dp in (1, 2, 3):
+                        sts2, ok2 = outcome(lambda: can_split(d, p, dp))
+                        if sts2 == "ok":
+                            reqs.append({"op": "canSplit", "s": info.lean_id, "doc": info.node(d), "pos": p, "depth": dp})
+                            metas.append(("canSplit", {"schema": info.name, "doc": d.to_json(), "pos": p, "depth": dp}, bool(ok2)))
                     br = r.block_range()
                     if br is not None and br.depth >= depth:
                         stl, tgt = outcome(lambda: lift_target(br))
